@@ -1,10 +1,192 @@
 import SV.Driver.Util
-/- svdriver_c05: line protocol for the C05 model (stub until the model is built). -/
-namespace SV.Driver.C05
+import SV.Model.Toc
+/-
+svdriver_c05: line protocol for the two TOC interpreters (`SV.Toc.memTree`, `SV.Toc.dbTree`).
 
-def step (s : Unit) : List String → Unit × String
+  layer <L> <blobsize>                 -> ok            start the TOC of layer L
+  entry <L> <name> <type> <size> <linkName> <mode> <uid> <gid> <devMajor> <devMinor> <offset>
+        <innerOffset> <chunkOffset> <chunkSize> <digest> <chunkDigest> <mtime|z> <k:v,...|->
+                                       -> ok            (strings hex encoded, `-` = empty; xattr values stay hex)
+  open  mem|db <L>                     -> ok | err      interpret the TOC (accept / reject)
+  close mem|db <L>                     -> ok            db: the layer's tree is removed
+  stat  <store> <L> <path>             -> mode=.. size=.. uid=.. gid=.. dev=..:.. nlink=.. link=..
+                                          mtime=.. xattrs=.. same=<first path of the node> | err | closed
+  off   <store> <L> <path>             -> <n> | err
+  ls    <store> <L> <path>             -> n=<k> <name>:<t>,... | err
+  deep  <store> <L> <path>             -> deep
+  fopen <store> <L> <path>             -> ok | err
+  chunk <store> <L> <path> <offset>    -> <chunkOffset> <chunkSize> <digest> | none
+  tocspan <store> <L> <compr> <jsonLen> <trailing> -> whole | json | unspec
+-/
+namespace SV.Driver.C05
+open SV.Driver SV.Toc
+
+structure Opened where
+  tree : Tree
+  all : List (Path × Key)
+  view : View
+
+structure St where
+  tocs : List (String × List Entry) := []       -- entries reversed
+  mem : List (String × Opened) := []
+  db : List (String × Opened) := []
+
+def lookupS {α : Type} (k : String) : List (String × α) → Option α
+  | [] => none
+  | (a, v) :: rest => if a = k then some v else lookupS k rest
+
+def setS {α : Type} (k : String) (v : α) (l : List (String × α)) : List (String × α) :=
+  (k, v) :: l.filter (·.1 ≠ k)
+
+def parseKV? (s : String) : Option (String × String) :=
+  match s.splitOn ":" with
+  | [k, v] => do
+    let k ← unhexStr? k
+    -- values are arbitrary bytes and opaque to both stores: kept in their hex spelling
+    let _ ← unhex? v
+    some (k, v)
+  | _ => none
+
+def parseXattrs? (s : String) : Option (List (String × String)) :=
+  if s = "-" then some [] else (s.splitOn ",").mapM parseKV?
+
+def parseEntry? : List String → Option Entry
+  | [name, type, size, link, mode, uid, gid, dmaj, dmin, off, inner, coff, csize, dg, cdg, mt, xs] => do
+    let name ← unhexStr? name
+    let type ← unhexStr? type
+    let size ← parseInt? size
+    let link ← unhexStr? link
+    let mode ← parseInt? mode
+    let uid ← parseInt? uid
+    let gid ← parseInt? gid
+    let dmaj ← parseInt? dmaj
+    let dmin ← parseInt? dmin
+    let off ← parseInt? off
+    let inner ← parseInt? inner
+    let coff ← parseInt? coff
+    let csize ← parseInt? csize
+    let dg ← unhexStr? dg
+    let cdg ← unhexStr? cdg
+    let mt ← if mt = "z" then some none else (parseInt? mt).map some
+    let xs ← parseXattrs? xs
+    some { name := name, type := type, size := size, linkName := link, mode := mode, uid := uid,
+           gid := gid, devMajor := dmaj, devMinor := dmin, offset := off, innerOffset := inner,
+           chunkOffset := coff, chunkSize := csize, digest := dg, chunkDigest := cdg, mtime := mt,
+           xattrs := xs }
+  | _ => none
+
+def octal (n : Nat) : String := String.ofList (Nat.toDigits 8 n)
+
+def showPath (p : Path) : String := hexStr (renderPath p)
+
+def showXattrs (xs : List (String × String)) : String :=
+  if xs.isEmpty then "-" else ",".intercalate (xs.map fun kv => hexStr kv.1 ++ ":" ++ kv.2)
+
+def showAttr (a : NAttr) : String :=
+  s!"mode={octal a.mode} size={a.size} uid={a.uid} gid={a.gid} dev={a.devMajor}:{a.devMinor} nlink={a.nlink} link={hexStr a.linkName} mtime={match a.mtime with | some t => toString t | none => "z"} xattrs={showXattrs a.xattrs}"
+
+def showTriple : Option (Int × Int × String) → String
+  | some (co, cs, d) => s!"{co} {cs} {hexStr d}"
+  | none => "none"
+
+def openTree (t : Tree) : Opened :=
+  let all := (listing t maxDepth [] t.root []).1
+  { tree := t, all := all, view := all.map (nodeView t all) }
+
+def findView (o : Opened) (p : Path) : Option NodeView := o.view.find? (·.path = p)
+
+def findKey (o : Opened) (p : Path) : Option Key := (o.all.find? (·.1 = p)).map (·.2)
+
+def stores (s : St) (store : String) : Option (List (String × Opened)) :=
+  if store = "mem" then some s.mem else if store = "db" then some s.db else none
+
+def query (o : Opened) (verb : String) (p : Path) (args : List String) : String :=
+  match verb, args with
+  | "stat", [] =>
+    (match findView o p with
+     | some v => if v.ok then s!"{showAttr v.attr} same={showPath v.same}" else "err"
+     | none => "nopath")
+  | "off", [] =>
+    (match findView o p with
+     | some v => if v.ok then toString v.offset else "err"
+     | none => "nopath")
+  | "ls", [] =>
+    (match findView o p with
+     | some v =>
+       (match v.ls with
+        | some (some l) =>
+          if l.isEmpty then "n=0"
+          else s!"n={l.length} " ++ ",".intercalate (l.map fun nc => hexStr nc.1 ++ ":" ++ String.singleton nc.2)
+        | some none => "err"
+        | none => "nols")
+     | none => "nopath")
+  | "deep", [] =>
+    (match findView o p with
+     | some v => if v.deep then "deep" else "notdeep"
+     | none => "nopath")
+  | "fopen", [] =>
+    (match findKey o p with
+     | some k => let n := o.tree.node k; if n.ok ∧ n.openOk then "ok" else "err"
+     | none => "nopath")
+  | "chunk", [x] =>
+    (match findKey o p, parseInt? x with
+     | some k, some x => showTriple ((o.tree.node k).chunks.lookup x)
+     | none, some _ => "nopath"
+     | _, none => "bad-op")
+  | _, _ => "bad-op"
+
+def parseCompr? : String → Option Compression
+  | "gzip" => some .gzip | "zstd" => some .zstd | "ext" => some .ext | _ => none
+
+def step (s : St) : List String → St × String
+  | ["layer", l, size] =>
+    match parseNat? size with
+    | some _ => ({ s with tocs := setS l [] s.tocs }, "ok")
+    | none => (s, "bad-op")
+  | "entry" :: l :: fields =>
+    match lookupS l s.tocs, parseEntry? fields with
+    | some es, some e => ({ s with tocs := setS l (e :: es) s.tocs }, "ok")
+    | _, _ => (s, "bad-op")
+  | ["open", store, l] =>
+    match lookupS l s.tocs with
+    | none => (s, "bad-op")
+    | some res =>
+      let es := res.reverse
+      if store = "mem" then
+        match memTree es with
+        | .accept t => ({ s with mem := setS l (openTree t) s.mem }, "ok")
+        | .reject => ({ s with mem := s.mem.filter (·.1 ≠ l) }, "err")
+      else if store = "db" then
+        match dbTree es with
+        | .accept t => ({ s with db := setS l (openTree t) s.db }, "ok")
+        | .reject => ({ s with db := s.db.filter (·.1 ≠ l) }, "err")
+      else (s, "bad-op")
+  | ["close", store, l] =>
+    -- memory.reader.Close is a no-op; db.reader.Close deletes the layer's bucket
+    if store = "mem" then (s, "ok")
+    else if store = "db" then ({ s with db := s.db.filter (·.1 ≠ l) }, "ok")
+    else (s, "bad-op")
+  | ["tocspan", store, _l, compr, jl, tr] =>
+    match parseCompr? compr, parseNat? jl, parseNat? tr with
+    | some c, some jl, some tr =>
+      let st : Option Store := if store = "mem" then some .mem else if store = "db" then some .db else none
+      (match st with
+       | some st =>
+         (match tocDigestSpan c st jl tr with
+          | some n => (s, if n = jl + tr then "whole" else if n = jl then "json" else "other")
+          | none => (s, "unspec"))
+       | none => (s, "bad-op"))
+    | _, _, _ => (s, "bad-op")
+  | verb :: store :: l :: p :: args =>
+    match stores s store, unhexStr? p with
+    | some tab, some ps =>
+      (match lookupS l tab with
+       | some o => (s, query o verb (cleanName ps) args)
+       | none => (s, if verb = "stat" ∨ verb = "off" ∨ verb = "ls" ∨ verb = "fopen" ∨ verb = "chunk" ∨ verb = "deep"
+                     then "closed" else "bad-op"))
+    | _, _ => (s, "bad-op")
   | _ => (s, "bad-op")
 
 end SV.Driver.C05
 
-def main : IO Unit := SV.Driver.loop SV.Driver.C05.step ()
+def main : IO Unit := SV.Driver.loop SV.Driver.C05.step {}
